@@ -25,7 +25,7 @@ TOL = Fraction(1, 10**9)
 # NOT explained by the class's known failure: it stays an unexplained disagreement)
 MODEL_EXPECTED = ("LinearModel.adjoint|nonorthogonal-geometry:", "LinearModel.get_matrix|stored-matrix+nonidentity-geometry",
                   "LinearModel.T|double-conversion:", "_proj_backward_2D|", "Deconvolution1D.__init__|transposed-assembly",
-                  "LinearModel.get_matrix|nonlinear-projection:")
+                  "LinearModel.get_matrix|nonlinear-projection:", "LinearModel.get_matrix|stale-cache:")
 
 
 # ------------------------------------------------------------------------------------------------
@@ -73,6 +73,8 @@ class G:
         self.orth = orth        # fun2par is the transpose of par2fun
         self.ident = ident      # par2fun = fun2par = identity (function value = parameter vector)
         self.idem = idem        # conversions are idempotent on their own output
+        self.idtype = spec[0] in ("int", "cont1d", "discrete", "image_visual", "image", "tuple", "cont2d")   # type in _get_identity_geometries()
+        self.userg = None       # Fraction c: a user geometry c.x that brings its own gradient method g |-> c.g
 
 
 def mk_geom(spec, obj=None):
@@ -123,13 +125,28 @@ def mk_geom(spec, obj=None):
     if k == "kl":
         N, nm, decay, norm = spec[1], spec[2], spec[3], spec[4]
         g = obj if obj is not None else cg.KLExpansion(np.arange(N), decay_rate=decay, normalizer=norm, num_modes=nm)
-        m = g.par_dim
-        Gm = np.array([g.par2fun(np.eye(m)[:, i]) for i in range(m)]).T.reshape(N, m)
-        with warnings.catch_warnings():
-            warnings.simplefilter("ignore")
-            Gi = np.array([np.atleast_1d(g.fun2par(np.eye(N)[:, j])) for j in range(N)]).T.reshape(m, N)
-        coq = "(GLin %s %s %s %s)" % (cnat(m), cnat(N), enc_mat(Gm), enc_mat(Gi))
+        # nothing is read back from the geometry object: the expansion is written out in the model from the matrices of
+        # scipy.fftpack.dst / idst (type 2; external numerics), the coefficients 1/k^decay and the normalizer
+        from scipy.fftpack import dst, idst
+        m = N if (nm is None or nm > N) else nm
+        dstM, idstM = dst(np.eye(N), axis=0), idst(np.eye(N), axis=0)
+        coefs = [1.0 / float(np.float_power(kk, decay)) for kk in range(1, m + 1)]
+        coq = "(kl_geom %s %s %s %s %s %s)" % (cnat(N), cnat(m), enc_vec(coefs), enc_q(frac(float(norm))), enc_mat(dstM), enc_mat(idstM))
         return G(spec, g, coq, "KLExpansion", m, N, (N,), False, False, False, False)
+    if k == "mapped_grad":      # a user-defined mapped geometry that implements `gradient` (transposed Jacobian of c.x)
+        num, den, inner = spec[1], spec[2], mk_geom(spec[3])
+        c = num / den
+        obj = cg.Continuous1D(inner.obj) if isinstance(inner.obj, int) else inner.obj
+
+        class _ScaledWithGradient(cg.MappedGeometry):
+            def gradient(self, direction, wrt):
+                return c * direction
+        g = _ScaledWithGradient(obj, map=lambda x, c=c: c * x, imap=lambda x, c=c: x / c)
+        coq = "(GScale %s %s %s)" % (enc_q(Fraction(num, den)), enc_q(Fraction(den, num)), inner.coq)
+        gg = G(spec, g, coq, "MappedGeometry", inner.par_dim, inner.fun_dim, inner.fun_shape, inner.exact, inner.orth and abs(num) == abs(den), False,
+               inner.idem and num == den)
+        gg.userg = Fraction(num, den)
+        return gg
     if k == "mapped":
         num, den, inner = spec[1], spec[2], mk_geom(spec[3])
         c = num / den
@@ -271,7 +288,8 @@ def build_model(meta):
         tp = build_testproblem(ms)
         mod = tp.model
         if ms["tp"] == "deconv2d":
-            P = np.asarray(tp.Miscellaneous["PSF"], dtype=float)
+            # a custom PSF is taken from the case description; only the arrays of the named generators (C17) come from the object
+            P = np.asarray(ms["PSF"], dtype=float) if isinstance(ms["PSF"], list) else np.asarray(tp.Miscellaneous["PSF"], dtype=float)
             S, n = max(P.shape), ms["dim"]
             bcn = BC2[ms["BC"].lower()]
             coq = "(deconv2_model %s %s %s %s)" % (bcn[1], cnat(S), cnat(n), enc_mat(P))
@@ -301,6 +319,9 @@ def build_model(meta):
         else:
             D = mk_geom(["cont1d", n])
         coq = "(mat_model %s %s %s %s)" % (cnat(A.shape[1]), enc_mat(A), D.coq, R.coq)
+        if ms["tp"] == "deconv1d" and isinstance(ms["PSF"], list) and not ms.get("legacy"):
+            # the matrix is COMPUTED by the model from the PSF and the boundary mode (column assembly of convolve1d), not read from the object
+            coq = "(mat_model %s (deconv1_matrix false %s %s %s) %s %s)" % (cnat(n), BC1[ms["BC"].lower()][1], enc_vec(list(ms["PSF"])), cnat(n), D.coq, R.coq)
         # integer PSFs through convolve1d / toeplitz and identity geometries: ring operations on small integers only -> compared exactly
         ex = bool(D.exact and D.ident and np.all(np.isfinite(A)) and np.all(A == np.round(A)) and np.max(np.abs(A)) < 2 ** 20)
         return M(mod, coq, D, R, "testproblem", ex, A.shape[1], A.shape[0], {"A": A, "tp": tp})
@@ -308,8 +329,9 @@ def build_model(meta):
     A = np.array(ms["A"], dtype=float) * 2.0 ** ms.get("scale", 0)      # dyadic magnitude sweep: still exact
     backing = ms["backing"]
     exact = D.exact and R.exact
-    if backing in ("dense", "csc", "csr"):
-        Aobj = {"dense": lambda a: a, "csc": sp.csc_matrix, "csr": sp.csr_matrix}[backing](A)
+    if backing in ("dense", "csc", "csr", "coo", "lil", "dia", "bsr", "dok", "fortran", "intdtype"):
+        Aobj = {"dense": lambda a: a, "csc": sp.csc_matrix, "csr": sp.csr_matrix, "coo": sp.coo_matrix, "lil": sp.lil_matrix, "dia": sp.dia_matrix,
+                "bsr": sp.bsr_matrix, "dok": sp.dok_matrix, "fortran": np.asfortranarray, "intdtype": lambda a: a.astype(np.int64)}[backing](A)
         kw = {}
         if not ms.get("infer_geom"):
             kw = dict(range_geometry=R.obj, domain_geometry=D.obj)
@@ -473,6 +495,8 @@ def observe(m, meta):
     if op == "fa":
         o["fx"] = cv(mod.forward, x, "forward(x)")
         o["ay"] = cv(mod.adjoint, y, "adjoint(y)")
+        if not mut:
+            o["styles"] = observe_styles(mod, x, y)
     elif op == "gm":
         o["G"] = call_mat(mod.get_matrix, al, "get_matrix()")
         o["fx"] = cv(mod.forward, x, "forward(x)")
@@ -510,9 +534,76 @@ def observe(m, meta):
     return o
 
 
-REPS = ["arr_par", "arr_fun", "cuqi_par", "cuqi_fun", "cuqi_par_eq", "cuqi_fun_eq", "cuqi_other", "samples_par", "samples_fun"]
+def observe_grad(m, meta):
+    """gradient(direction, wrt) of the LinearModel for two different wrt, direction as ndarray / CUQIarray / function values"""
+    from cuqi.array import CUQIarray
+    mod = m.obj
+    d, x, x2 = meta["y"], meta["x"], meta["x2"]
+    o = {}
+
+    def call(f):
+        try:
+            with warnings.catch_warnings():
+                warnings.simplefilter("ignore")
+                out = f()
+            a = np.asarray(out, dtype=float)
+            return {"val": [float(t) for t in a] if a.ndim == 1 else "shape %s" % (a.shape,), "wrap": type(out).__name__}
+        except Exception as e:
+            return {"val": None, "wrap": "raised " + type(e).__name__}
+    arr = lambda v: np.array(v, dtype=float)
+    o["g"] = call(lambda: mod.gradient(arr(d), arr(x)))
+    o["g_wrt2"] = call(lambda: mod.gradient(arr(d), arr(x2)))
+    o["g_kw"] = call(lambda: mod.gradient(direction=arr(d), wrt=arr(x), is_direction_par=True, is_wrt_par=True))
+    o["g_cuqi"] = call(lambda: mod.gradient(CUQIarray(arr(d), is_par=True, geometry=mod.range_geometry), arr(x)))
+    with warnings.catch_warnings():
+        warnings.simplefilter("ignore")
+        fd = np.asarray(mod.range_geometry.par2fun(arr(d)))
+    o["d_fun"] = [float(a) for a in fd.ravel()]
+    o["g_fun"] = call(lambda: mod.gradient(fd.copy(), arr(x), is_direction_par=False))
+    o["ay"] = call_vec(mod.adjoint, d)
+    o["fx"] = call_vec(mod.forward, x)
+    return o
+
+
+def grad_oracle(m, meta, o):
+    ex = m.exact
+    d, x = meta["y"], meta["x"]
+    g = o["g"]["val"]
+    sig = "LinearModel.gradient|%s->%s,%s" % (m.D.family + ("+gradient" if m.D.userg else ""), m.R.family, m.backing)
+    if g is None:
+        return (None, "")            # refused: which configurations are refused is compared with the model (DECISION)
+    if not isinstance(g, list):
+        return ("gradient returns %s" % (g,), sig)
+    for key, what in (("g_wrt2", "another wrt"), ("g_kw", "keyword arguments"), ("g_cuqi", "a CUQIarray direction"), ("g_fun", "the direction as function values")):
+        if not same_vec(o[key]["val"], g, ex):
+            return ("gradient(direction, wrt) = %s but with %s it is %s" % (g, what, o[key]["val"]), sig)
+    if o["g_cuqi"]["wrap"] != "CUQIarray" or o["g"]["wrap"] == "CUQIarray":
+        return ("gradient returns a %s for an ndarray direction and a %s for a CUQIarray direction" % (o["g"]["wrap"], o["g_cuqi"]["wrap"]), sig)
+    if isinstance(o["fx"], list):
+        a, b = ip(o["fx"], d), ip(x, g)
+        if not same(a, b, ex):
+            return ("<forward x, d> = %s but <x, gradient(d, wrt)> = %s: the gradient is not the transposed Jacobian (x=%s, d=%s, gradient=%s)"
+                    % (float(a), float(b), x, d, g), sig)
+    if m.D.idtype and m.R.idtype and not same_vec(o["ay"], g, ex):
+        return ("gradient(d, wrt) = %s but adjoint(d) = %s" % (g, o["ay"]), sig)
+    return (None, "")
+
+
+def grad_coq_expr(m, meta, o):
+    t = ctol(m.exact)
+    ug = "None" if m.D.userg is None else "(Some %s)" % enc_q(m.D.userg)
+    if any(isinstance(o[k]["val"], str) for k in ("g", "g_wrt2", "g_kw", "g_cuqi", "g_fun")):
+        return "false"
+    dv = "(V1 %s)" % enc_vec(meta["y"])
+    parts = ["check_gradient %s %s false %s %s %s" % (t, ug, m.coq, dv, enc_opt(o[k]["val"], enc_vec)) for k in ("g", "g_wrt2", "g_kw", "g_cuqi")]
+    parts.append("check_gradient %s %s true %s (funval %s %s) %s" % (t, ug, m.coq, m.R.coq, enc_vec(o["d_fun"]), enc_opt(o["g_fun"]["val"], enc_vec)))
+    return " && ".join(parts)
+
+
+REPS = ["arr_par", "arr_fun", "cuqi_par", "cuqi_fun", "cuqi_par_eq", "cuqi_fun_eq", "cuqi_sub", "cuqi_other", "samples_par", "samples_fun"]
 COQ_REP = {"arr_par": "RArrayPar", "arr_fun": "RArrayFun", "cuqi_par": "RCuqiPar", "cuqi_fun": "RCuqiFun", "cuqi_other": "RCuqiOther",
            "cuqi_par_eq": "RCuqiPar", "cuqi_fun_eq": "RCuqiFun",      # an equal geometry that is another object
+           "cuqi_sub": "RCuqiPar",                                    # an instance of a user subclass of CUQIarray
            "samples_par": "RArrayPar", "samples_fun": "RArrayFun"}
 
 
@@ -546,15 +637,17 @@ def observe_reps(m, meta):
                         out = fn(CUQIarray(np.array(v, dtype=float), is_par=True, geometry=copy.deepcopy(gin)))
                     elif rep == "cuqi_fun_eq":
                         out = fn(CUQIarray(fv.copy(), is_par=False, geometry=copy.deepcopy(gin)))
+                    elif rep == "cuqi_sub":
+                        class _MyArray(CUQIarray):
+                            pass
+                        out = fn(_MyArray(np.array(v, dtype=float), is_par=True, geometry=gin))
                     elif rep == "cuqi_other":
                         out = fn(CUQIarray(np.array(v, dtype=float), is_par=True, geometry=Discrete(["v%d" % i for i in range(len(v))])))
                     elif rep == "samples_par":
                         out = fn(Samples(np.column_stack([v, v2]).astype(float), geometry=gin))
                     else:
-                        if fv.ndim != 1:
-                            o[key] = "skipped"
-                            continue
-                        out = fn(Samples(np.column_stack([fv, fv2]), geometry=gin, is_par=False), is_par=False)
+                        # vector- or image-valued function values: the sample index is the LAST axis
+                        out = fn(Samples(np.stack([fv, fv2], axis=-1), geometry=gin, is_par=False), is_par=False)
                 if rep.startswith("samples"):
                     S = np.asarray(out.samples, dtype=float)
                     o[key] = {"val": [[float(a) for a in S[:, j]] for j in range(S.shape[1])], "wrap": type(out).__name__}
@@ -577,7 +670,7 @@ def rep_oracle(m, meta, o):
             r = o[side + "_" + rep]
             if r == "skipped":
                 continue
-            want = "Samples" if rep.startswith("samples") else ("CUQIarray" if rep.startswith("cuqi") else "ndarray")
+            want = "Samples" if rep.startswith("samples") else ("CUQIarray" if rep.startswith("cuqi") else "ndarray")   # a subclass instance comes back as a plain CUQIarray
             ref = [base, None] if rep.startswith("samples") else base
             got = r["val"]
             if rep.startswith("samples"):
@@ -624,6 +717,51 @@ def rep_coq_expr(m, meta, o):
     return " && ".join(parts)
 
 
+def observe_styles(mod, x, y):
+    """the same forward/adjoint calls with other dtypes / memory layouts of the input and through every call form"""
+    def mk(v, style):
+        a = np.array(v, dtype=float)
+        if style == "int64":
+            return a.astype(np.int64) if np.all(a == np.round(a)) else None
+        if style == "float32":
+            return a.astype(np.float32) if np.all(a.astype(np.float32) == a) else None
+        if style == "strided":
+            big = np.zeros(2 * len(a)); big[::2] = a
+            return big[::2]
+        if style == "reversed-view":
+            return a[::-1].copy()[::-1]
+        if style == "readonly":
+            a.setflags(write=False)
+            return a
+        if style == "list":
+            return [float(t) for t in a]
+        return a
+    out = {}
+    for style in ("int64", "float32", "strided", "reversed-view", "readonly"):
+        for nm, f, v in (("forward", mod.forward, x), ("adjoint", mod.adjoint, y)):
+            a = mk(v, style)
+            if a is not None:
+                out["%s/%s" % (nm, style)] = call_vec_raw(f, a)
+    name = mod._non_default_args[0]
+    out["forward/keyword"] = call_vec_raw(lambda a: mod.forward(**{name: a}), mk(x, ""))
+    out["forward/call"] = call_vec_raw(lambda a: mod(a), mk(x, ""))
+    out["forward/matmul"] = call_vec_raw(lambda a: mod @ a, mk(x, ""))
+    out["forward/is_par=True"] = call_vec_raw(lambda a: mod.forward(a, is_par=True), mk(x, ""))
+    out["adjoint/is_par=True"] = call_vec_raw(lambda a: mod.adjoint(a, is_par=True), mk(y, ""))
+    out["adjoint/keyword"] = call_vec_raw(lambda a: mod.adjoint(y=a), mk(y, ""))
+    return out
+
+
+def call_vec_raw(f, arr):
+    try:
+        with warnings.catch_warnings():
+            warnings.simplefilter("ignore")
+            out = np.asarray(f(arr), dtype=float)
+        return [float(a) for a in out] if out.ndim == 1 else "shape %s" % (out.shape,)
+    except Exception as e:
+        return "raised " + type(e).__name__
+
+
 def stability_oracle(m, meta, o):
     """results are values: the same call gives the same result later, and nothing handed out or passed in changes afterwards"""
     op = meta["op"]
@@ -644,6 +782,15 @@ def property_oracle(m, meta, o):
     if detail:
         return (detail, sig)
     if op == "fa":
+        for key, val in (o.get("styles") or {}).items():
+            ref = o["fx"] if key.startswith("forward") else o["ay"]
+            if key.endswith("float32") and not ex and isinstance(ref, list) and isinstance(val, list) and len(val) == len(ref):
+                # single-precision input through floating-point convolutions: single-precision accuracy is all that can be asked
+                bad = any(abs(a - b) > 1e-5 * (1 + abs(b)) for a, b in zip(val, ref))
+            else:
+                bad = isinstance(ref, list) and not same_vec(val, ref, ex)
+            if bad:
+                return ("%s gives %s but the plain float64 call gives %s" % (key, val, ref), "LinearModel.%s|input-style:%s" % tuple(key.split("/")))
         if not isinstance(o["fx"], list) or not isinstance(o["ay"], list):
             return ("forward or adjoint raised / returned a non-vector: forward=%s adjoint=%s" % (o["fx"], o["ay"]), adj_signature(m, meta))
         if len(o["fx"]) != m.R.par_dim or len(o["ay"]) != m.D.par_dim:
@@ -742,8 +889,37 @@ def run_one(m, meta):
     if meta["op"] == "rep":
         o = observe_reps(m, meta)
         return o, rep_oracle(m, meta, o), rep_coq_expr(m, meta, o)
+    if meta["op"] == "grad":
+        o = observe_grad(m, meta)
+        return o, grad_oracle(m, meta, o), grad_coq_expr(m, meta, o)
     o = observe(m, meta)
     return o, property_oracle(m, meta, o), coq_expr(m, meta, o)
+
+
+def reassign_case(meta, cell):
+    """get_matrix(), then model.domain_geometry = another geometry, then get_matrix() again and forward on the unit vectors"""
+    m = build_model(meta)
+    mod = m.obj
+    D2 = mk_geom(meta["D2"])
+    G1 = call_mat(mod.get_matrix)
+    mod.domain_geometry = D2.obj
+    G2 = call_mat(mod.get_matrix)
+    cols = [call_vec(mod.forward, [1.0 if i == j else 0.0 for i in range(D2.par_dim)]) for j in range(D2.par_dim)]
+    detail, sig = None, ""
+    if G2 is None or any(not same_vec([r[j] for r in G2], cj, m.exact and D2.exact) for j, cj in enumerate(cols)):
+        j = 0 if G2 is None else next(j for j, cj in enumerate(cols) if not same_vec([r[j] for r in G2], cj, m.exact and D2.exact))
+        detail = ("after model.domain_geometry = %s: column %d of get_matrix() is %s but forward(e_%d) = %s (the matrix cached for the former geometry is handed out)"
+                  % (D2.family, j, None if G2 is None else [r[j] for r in G2], j, cols[j]))
+        sig = "LinearModel.get_matrix|stale-cache:geometry-reassigned"
+    t = ctol(m.exact and D2.exact)
+    em = lambda v: enc_opt(v, enc_mat)
+    # the model: the assembled matrix was stored; re-assigning the geometry leaves it where it is
+    m2 = "(let m0 := after_get_matrix %s in mkLM (lm_fwd m0) (lm_adj m0) (lm_mat m0) %s (lm_R m0))" % (m.coq, D2.coq)
+    expr = "check_get_matrix %s %s %s && check_get_matrix %s %s %s" % (t, m.coq, em(G1), t, m2, em(G2))
+    cases = [Case(expr=expr, meta=meta, cell=cell, kind="EXACT" if m.exact and D2.exact else "DECISION")]
+    if detail:
+        cases.append(Case(expr="true", meta=dict(meta, verdict="oracle"), cell="oracle-verdict/" + cell, trivial=True, impl_fail=detail, signature=sig))
+    return cases
 
 
 def make_cases(meta, cell, trivial=False):
@@ -976,9 +1152,63 @@ def run(ctx):
             meta = {"op": "rep", "model": ms, "x": rvec(rng, nD), "y": rvec(rng, nR), "x2": rvec(rng, nD), "y2": rvec(rng, nR)}
             cases.extend(make_cases(meta, "representations/" + label))
 
+    # ---- 2h. every storage format / layout / dtype of a given matrix (declaration style is not structure) ---------------------
+    for backing in ("coo", "lil", "dia", "bsr", "dok", "fortran", "intdtype"):
+        for (nr, nc, Ds, Rs) in [(2, 3, ["cont1d", 3], ["int", 2]), (4, 4, ["discrete", 4], ["image_visual", 2, 2])]:
+            for op in OPS:
+                add({"backing": backing, "A": rmat(rng, nr, nc), "D": Ds, "R": Rs}, op, rvec(rng, nc), rvec(rng, nr), "format-%s/%s" % (backing, op))
+    # falsy but legitimate: the zero matrix, rank-deficient matrices, 1 x n and n x 1
+    for A0, lab in (([[0, 0, 0], [0, 0, 0]], "zero"), ([[1, 2, 3], [2, 4, 6]], "rank1"), ([[0, 2, 0]], "row"), ([[0], [3], [0]], "column")):
+        for backing in ("dense", "csr", "function"):
+            for op in OPS:
+                nr, nc = len(A0), len(A0[0])
+                add({"backing": backing, "A": A0, "D": ["cont1d", nc], "R": ["int", nr]}, op, rvec(rng, nc), rvec(rng, nr), "falsy-%s/%s/%s" % (lab, backing, op))
+
+    # ---- 2i. the model object re-used after one of its geometries was re-assigned (tests and demos of the library do that):
+    #          get_matrix() must follow, i.e. not hand out the matrix cached for the former geometry ----------------------------
+    for (Ds, Ds2) in [(["image", 2, 2, "C"], ["image", 2, 2, "F"]), (["cont1d", 4], ["mapped", 2, 1, ["cont1d", 4]])]:
+        cases.extend(reassign_case({"op": "gm_reassign", "model": {"backing": "function", "A": rmat(rng, 3, 4), "D": Ds, "R": ["int", 3]}, "D2": Ds2,
+                                    "x": rvec(rng, 4), "y": rvec(rng, 3)}, "reassigned-geometry/%s->%s" % (mk_geom(Ds).family, mk_geom(Ds2).family)))
+
+    # ---- 2f. gradient of the LinearModel (= adjoint for identity-type geometries, refused for the others, chain rule through a
+    #          user geometry that brings its own gradient) -------------------------------------------------------------
+    grad_models = [("dense", ["cont1d", 3], ["int", 2]), ("csr", ["discrete", 2], ["cont1d", 3]), ("function", ["int", 3], ["discrete", 3]),
+                   ("function", ["image", 2, 2, "F"], ["image", 3, 1, "C"]), ("function", ["tuple", 2, 2], ["cont2d", 2, 2]),
+                   ("function", ["image_visual", 2, 2], ["cont1d", 2]), ("dense", ["image", 3, 2, "C"], ["image", 2, 2, "F"]),
+                   # refused: range or domain not of identity type
+                   ("dense", ["cont1d", 3], ["step", 4, 2]), ("function", ["int", 3], ["kl", 4, 3, 1.5, 2.0]), ("dense", ["cont1d", 2], ["mapped", 2, 1, ["cont1d", 3]]),
+                   ("dense", ["step", 6, 3], ["int", 2]), ("dense", ["step", 3, 3], ["int", 2]), ("function", ["kl", 4, 4, 1.0, 1.0], ["cont1d", 2]),
+                   ("dense", ["mapped", 2, 1, ["cont1d", 3]], ["int", 2]), ("function", ["step", 4, 2, "max"], ["int", 3]),
+                   # a user geometry with its own gradient: the chain-rule factor
+                   ("dense", ["mapped_grad", 2, 1, ["cont1d", 3]], ["int", 2]), ("function", ["mapped_grad", 1, 4, ["discrete", 2]], ["cont1d", 3]),
+                   ("csc", ["mapped_grad", -1, 1, ["cont1d", 3]], ["discrete", 2]), ("function", ["mapped_grad", 3, 2, ["int", 3]], ["image", 2, 2, "F"]),
+                   ("dense", ["mapped_grad", 2, 1, ["cont1d", 3]], ["step", 4, 2])]
+    for (backing, Ds, Rs) in grad_models:
+        D, R = mk_geom(Ds), mk_geom(Rs)
+        for _ in range(ctx.n(2, 5)):
+            if backing != "function" and D.fun_shape != (D.fun_dim,):
+                A = rmat(rng, R.fun_shape[0], D.fun_shape[0])
+            else:
+                A = rmat(rng, R.fun_dim, D.fun_dim)
+            meta = {"op": "grad", "model": {"backing": backing, "A": A, "D": Ds, "R": Rs}, "x": rvec(rng, D.par_dim), "y": rvec(rng, R.par_dim), "x2": rvec(rng, D.par_dim)}
+            cases.extend(make_cases(meta, "gradient/%s/%s%s->%s" % ("matrix" if backing != "function" else backing, D.family, "+gradient" if D.userg else "", R.family)))
+    for tp_spec in ({"tp": "deconv2d", "dim": 4, "PSF": [[1, 0, 2], [0, 3, 1], [1, 1, 0]], "BC": "zero"}, {"tp": "deconv1d", "dim": 5, "PSF": [1, 2, 3], "BC": "nearest"},
+                    {"tp": "abel", "dim": 4}, {"tp": "abel", "dim": 6, "field_type": "Step", "field_params": {"n_steps": 3}}):
+        mm = build_model({"model": tp_spec})
+        meta = {"op": "grad", "model": tp_spec, "x": rvec(rng, mm.D.par_dim), "y": rvec(rng, mm.R.par_dim), "x2": rvec(rng, mm.D.par_dim)}
+        cases.extend(make_cases(meta, "gradient/testproblem/" + tp_spec["tp"]))
+
+    # ---- 2g. the dst/idst law assumed by C07_kl_left_inverse, on the very matrices the KL cells run with ----------------------
+    from scipy.fftpack import dst as _dst, idst as _idst
+    for N in (4, 5, 6):
+        dM, iM = enc_mat(_dst(np.eye(N), axis=0)), enc_mat(_idst(np.eye(N), axis=0))
+        expr = ("qcll_close tol9 (map (fun j => qmatvec %s (qmatvec %s (qunit %s j))) (seq 0 %s)) "
+                "(map (fun j => qvscale (qcz 2 * qcz %s)%%Qc (qunit %s j)) (seq 0 %s))" % (dM, iM, cnat(N), cnat(N), cz(N), cnat(N), cnat(N)))
+        cases.append(Case(expr=expr, meta={"op": "dst_law", "N": N}, cell="KL-dst-law", kind="DECISION"))
+
     # ---- 3. expansions and mapped geometries (non-orthogonal maps), both backings, domain and range side --------
     exp_specs = [["step", 6, 3, "max"], ["step", 5, 2, "min"], ["step", 3, 3, "max"], ["step", 6, 3], ["step", 4, 2], ["step", 8, 4], ["step", 7, 3], ["step", 5, 2], ["step", 3, 3], ["step", 9, 2],
-                 ["kl", 6, None, 2.5, 12.0], ["kl", 5, 3, 1.5, 2.0], ["kl", 4, 4, 1.0, 1.0],
+                 ["kl", 6, None, 2.5, 12.0], ["kl", 5, 3, 1.5, 2.0], ["kl", 4, 4, 1.0, 1.0], ["kl", 4, 7, 2.0, 3.0],
                  ["mapped", 2, 1, ["cont1d", 3]], ["mapped", 1, 4, ["discrete", 4]], ["mapped", -1, 1, ["cont1d", 3]],
                  ["mapped", 1, 1, ["cont1d", 4]], ["mapped", 2, 1, ["step", 6, 3]], ["mapped", 4, 1, ["image", 2, 2, "F"]]]
     for es in exp_specs:
@@ -1001,7 +1231,8 @@ def run(ctx):
 
     # ---- 4. shipped test problems ---------------------------------------------------------------------------------
     int_psfs_1d = {"sym3": [1, 2, 1], "asym3": [1, 2, 3], "asym4": [1, 2, 3, 4], "sym4": [1, 2, 2, 1], "asym5": [3, 0, 1, 2, 1],
-                   "sym5": [1, 2, 4, 2, 1], "long7": [1, 0, 2, 3, 1, 1, 2], "one": [2]}
+                   "sym5": [1, 2, 4, 2, 1], "long7": [1, 0, 2, 3, 1, 1, 2], "one": [2],
+                   "asym8": [1, 0, 2, 3, 1, 1, 2, 4], "long13": [1, 2, 0, 0, 3, 1, 0, 2, 1, 1, 0, 0, 5]}      # longer than the signal, even and odd
     for bc in BC1:
         for dim in (5, 6):
             specs = [{"tp": "deconv1d", "dim": dim, "PSF": p, "BC": bc, "psf_name": nm} for nm, p in int_psfs_1d.items()]
@@ -1013,7 +1244,7 @@ def run(ctx):
                 par = "even" if len(psf_used_1d(sp_)) % 2 == 0 else "odd"
                 cell = "Deconvolution1D/%s/%s-%s" % (bc, "int" if isinstance(sp_["PSF"], list) else sp_["PSF"], par)
                 cases.extend(deconv1d_matrix_case(sp_, cell + "/matrix"))
-                if ctx.thorough or sp_["psf_name"] in ("asym3", "asym4", "gauss4", "moffat3", "defocusdim"):
+                if ctx.thorough or sp_["psf_name"] in ("asym3", "asym4", "gauss4", "moffat3", "defocusdim", "asym8"):
                     for op in OPS:
                         add(sp_, op, rvec(rng, dim), rvec(rng, dim), cell + "/" + op)
     for psf in ("gauss", "sinc", "vonmises", [0, 1, 3, 2, 0, 0]):
@@ -1025,7 +1256,11 @@ def run(ctx):
                    "asym4": [[1, 0, 2, 1], [0, 3, 1, 0], [1, 1, 0, 2], [0, 1, 0, 1]],
                    "asym5": [[1, 0, 2, 1, 0], [0, 3, 1, 0, 1], [1, 1, 4, 2, 0], [0, 1, 0, 1, 1], [2, 0, 1, 0, 1]],
                    "dsym5": [[a * b for b in (1, 2, 3, 2, 1)] for a in (1, 2, 3, 2, 1)],
-                   "sym2": [[1, 1], [1, 1]]}
+                   "sym2": [[1, 1], [1, 1]],
+                   # custom PSFs: P != P^T (motion blur), larger than the image (odd and even), anisotropic point-symmetric
+                   "motion3": [[0, 0, 0], [1, 2, 3], [0, 0, 0]], "aniso3": [[1, 2, 1], [3, 5, 3], [1, 2, 1]],
+                   "big7": [[((3 * i + 5 * j + i * j) % 7) - 2 if (i + 2 * j) % 3 else 0 for j in range(7)] for i in range(7)],
+                   "big6": [[((2 * i + 3 * j + 1) % 5) - 1 if (i + j) % 2 else 0 for j in range(6)] for i in range(6)]}
     for bc in BC2:
         for dim in (4, 5):
             specs = [{"tp": "deconv2d", "dim": dim, "PSF": p, "BC": bc, "psf_name": nm} for nm, p in int_psfs_2d.items()]
@@ -1038,9 +1273,23 @@ def run(ctx):
                 cell = "Deconvolution2D/%s/%s-%s" % (bc, "int" if isinstance(sp_["PSF"], list) else sp_["PSF"], "even" if S % 2 == 0 else "odd")
                 for _ in range(reps if isinstance(sp_["PSF"], list) else 1):
                     add(sp_, "fa", rvec(rng, dim * dim), rvec(rng, dim * dim), cell + "/fa")
-                if dim == 4 and (ctx.thorough or sp_["psf_name"] in ("asym3", "asym4", "gauss3", "sym3")):
+                if dim == 4 and (ctx.thorough or sp_["psf_name"] in ("asym3", "asym4", "gauss3", "sym3", "motion3", "big7")):
                     for op in ("gm", "T", "T_after_gm"):
                         add(sp_, op, rvec(rng, dim * dim), rvec(rng, dim * dim), cell + "/" + op)
+
+    # a non-square custom PSF is refused at construction (the padded convolution has another shape than the image)
+    for shp in ((3, 5), (4, 2)):
+        P = [[(i + 2 * j) % 4 for j in range(shp[1])] for i in range(shp[0])]
+        spec = {"tp": "deconv2d", "dim": 5, "PSF": P, "BC": "periodic"}
+        try:
+            tpn = build_testproblem(spec)
+            fxn = call_vec(tpn.model.forward, [1.0] * 25)
+            ok, why = isinstance(fxn, list) and len(fxn) == 25, "accepted; forward returns %s" % (fxn if not isinstance(fxn, list) else "a vector of length %d" % len(fxn))
+        except Exception as e:
+            ok, why = True, "refused: " + type(e).__name__
+        cases.append(Case(expr="true", meta={"op": "nonsquare_psf", "model": spec}, cell="Deconvolution2D/nonsquare-PSF", kind="DECISION",
+                          impl_fail=None if ok else "Deconvolution2D with a %dx%d PSF: %s" % (shp[0], shp[1], why),
+                          signature="" if ok else "Deconvolution2D.__init__|nonsquare-PSF"))
 
     abel_specs = [{"tp": "abel", "dim": 6}, {"tp": "abel", "dim": 4, "field_type": "Discrete"},
                   {"tp": "abel", "dim": 6, "field_type": "Step", "field_params": {"n_steps": 3}},
@@ -1056,8 +1305,8 @@ def run(ctx):
                     "Abel1D/%s%s/%s" % (sp_.get("field_type") or "default", "+map" if sp_.get("KL_map") else "", op))
 
     return Result(cases=cases, rule=RULE,
-                  assumptions=["KLExpansion's par2fun/fun2par (scipy dst/idst) enter the model as matrices read off the implementation on unit vectors (certificate); "
-                               "their linearity is exercised by the correspondence, their formula belongs to C13",
+                  assumptions=["KLExpansion.par2fun/fun2par are written out in the model (kl_geom); scipy.fftpack.dst/idst enter as their matrices on unit vectors (external numerics, not CUQIpy code), "
+                               "and the law dst(idst v) = 2N v that the left-inverse theorem assumes is checked on those matrices in every run (cell KL-dst-law)",
                                "StepExpansion's node-to-step assignment is read from the implementation's _indices (consecutive non-empty blocks are required); its float boundary behaviour belongs to C13",
                                "the PSF arrays of the shipped generators (_GaussPSF...) are taken from the implementation; Abel1D's and the legacy circulant matrix entries are taken as stored (their formulas belong to C17)",
                                "fftconvolve = direct convolution within 1e-9; scipy.ndimage.convolve1d modes and numpy.pad modes are modelled from their documentation and compared on every run",
@@ -1071,6 +1320,9 @@ def _verdict(meta):
     if meta.get("op") == "deconv1d_matrix":
         cs = deconv1d_matrix_case(meta["model"], "replay")
         bad = [c for c in cs if c.impl_fail]
+        return (bad[0].impl_fail, bad[0].signature) if bad else (None, "")
+    if meta.get("op") == "gm_reassign":
+        bad = [c for c in reassign_case(meta, "replay") if c.impl_fail]
         return (bad[0].impl_fail, bad[0].signature) if bad else (None, "")
     m = build_model(meta)
     return run_one(m, meta)[1]
@@ -1093,6 +1345,9 @@ def classify(meta, detail):
 
 
 WITNESSES = {
+    "LinearModel.get_matrix|stale-cache:geometry-reassigned":
+        {"op": "gm_reassign", "model": {"backing": "function", "A": [[1, 2, 0, 1], [0, 1, 1, 2], [2, 0, 1, 0]], "D": ["image", 2, 2, "C"], "R": ["int", 3]},
+         "D2": ["image", 2, 2, "F"], "x": [1, 2, 3, 4], "y": [1, -1, 2]},
     "LinearModel.get_matrix|nonlinear-projection:StepExpansion":
         {"op": "gm", "model": {"backing": "function", "A": [[1, 0, 0, 0], [0, 1, 0, 0], [0, 0, 1, 0], [0, 0, 0, 1]], "D": ["int", 4], "R": ["step", 4, 2, "max"]},
          "x": [1, 1, 0, 0], "y": [1, 1]},
@@ -1180,6 +1435,13 @@ def _replay_one(m):
             if c.expr != "true":
                 rc, out = eval_in_coq(IMPORTS, c.expr, tag="replay_C07")
                 print("model check:", out[-300:])
+        return
+    if m.get("op") == "gm_reassign":
+        for c in reassign_case(m, "replay"):
+            print("oracle:", c.impl_fail or "holds", "| signature:", c.signature)
+            if c.expr != "true":
+                rc, out = eval_in_coq(IMPORTS, c.expr, tag="replay_C07")
+                print("model agrees with implementation:", out[-200:])
         return
     mod = build_model(m)
     o, (detail, sig), expr = run_one(mod, m)
